@@ -197,11 +197,29 @@ STAGE_KINDS = ["rd", "rb", "rr", "dc", "dl", "st", "ex", "re", "px", "pr", "pm"]
 PKT_KINDS = ["rd", "rb", "rr", "dc", "dl", "st", "px", "pr", "pm", "px", "pr"]     # streams with EmptyBits: no utils.h ex/re
 
 
-def gen_chain(rng, depth, allow_fifo=False, force=None, kinds=None, ebsafe=False):
-    """returns (tokens, min_digits, nstall).  ebsafe: shapes on which Packet.h widthReduce's Empty/EmptyBits output is right
-    (narrow beat of 1 or 2 four-bit digits; see K_PR_EMPTY), widthExtend ratio >= 2."""
+def emptybits_widths_ok(stages, w, digits0):
+    """Elaboration restriction seen on the real code (reported, not a behavioural defect): Packet.h widthReduce computes
+    `bitsLeft - zext(emptyBits(in))` with bitsLeft BitWidth::last(bitsPerBeatIn) wide, so emptyBits(in) must not be wider;
+    widthExtend's output EmptyBits is BitWidth::last((r-1)*bitsIn + maxvalue(emptyBits(in))) wide, which is wider than that
+    for some non power of two widths (9b -> 27b -> 9b) => DesignCheck 'missmatching operands size'."""
+    bits = w * digits0
+    ebw = (bits - 1).bit_length()
+    for k, a in stages:
+        a = max(1, a)
+        if k == "px":
+            ebw = (bits * (a - 1) + (1 << ebw) - 1).bit_length(); bits *= a
+        elif k == "pr":
+            if ebw > bits.bit_length():
+                return False
+            bits //= a; ebw = (bits - 1).bit_length()
+    return True
+
+
+def gen_chain(rng, depth, allow_fifo=False, force=None, kinds=None, ebsafe=False, w=4):
+    """returns (tokens, min_digits, nstall).  ebsafe (streams with EmptyBits): widthExtend ratio >= 2 (ratio 1 throws a
+    DesignCheck with EmptyBits) and no blocking register in front of widthReduce (X at power-up, K_XREADY)."""
     for _ in range(400):
-        digits0 = rng.choice([1, 1, 1, 2, 3, 4, 6]) if not ebsafe else rng.choice([1, 1, 2, 2, 4, 4, 6, 8])
+        digits0 = rng.choice([1, 1, 1, 2, 3, 4, 6])
         digits = digits0
         toks = []
         nst = 0
@@ -228,19 +246,21 @@ def gen_chain(rng, depth, allow_fifo=False, force=None, kinds=None, ebsafe=False
                     ok = False; break
                 digits *= r; toks.append(f"px{r}")
             elif k == "pr":
-                divs = [r for r in (1, 2, 3, 4, 6, 8) if digits % r == 0 and (not ebsafe or (r >= 2 and digits // r in (1, 2)))]
+                divs = [r for r in (1, 2, 3, 4, 6, 8) if digits % r == 0]
                 if not divs:
                     ok = False; break
                 r = rng.choice(divs[1:] if len(divs) > 1 and rng.random() < 0.9 else divs)
                 digits //= r; toks.append(f"pr{r}")
             elif k == "pm":
-                targets = [t for t in (1, 2, 3, 4, 6, 8, 12) if (t % digits == 0 or digits % t == 0) and (not ebsafe or t >= digits or t in (1, 2))]
+                targets = [t for t in (1, 2, 3, 4, 6, 8, 12) if (t % digits == 0 or digits % t == 0)]
                 t = rng.choice(targets)
                 digits = t; toks.append(f"pm{t}")
             elif k in ("ff", "fz"):
                 toks.append(f"{k}{rng.choice([2, 4, 8])}")
             else:
                 toks.append(k)
+        if ok and ebsafe and not emptybits_widths_ok(parse_chain(",".join(toks), digits0), w, digits0):
+            ok = False
         if ok and not chain_info(parse_chain(",".join(toks), digits0), True, True, eb=ebsafe)["x_poison"]:
             return toks, digits0, nst
     return ["rd"], 1, 0
@@ -330,11 +350,11 @@ def gen_pkt_case(rng, cid, n, eb, force=None, depth=None, pause=None, rkind=None
     advancing on transfer(out)) matters."""
     depth = depth or rng.choice([1, 1, 2, 3, 3, 4])
     kinds = PKT_KINDS if eb else STAGE_KINDS
-    toks, digits0, nst = gen_chain(rng, depth, allow_fifo, force, kinds=kinds, ebsafe=bool(eb) and not expose)
+    w = rng.choice([3, 4]) if not expose else expose[2]; mw = 3
+    toks, digits0, nst = gen_chain(rng, depth, allow_fifo, force, kinds=kinds, ebsafe=bool(eb) and not expose, w=w)
     if expose:
         digits0, r_, w_ = expose
         toks, nst = [f"pr{r_}"], 0
-    w = (4 if eb else rng.choice([3, 4])) if not expose else expose[2]; mw = 3
     stages = parse_chain(",".join(toks), digits0)
     cap = chain_info(stages, True, True)["cap"]
     drain = min(n // 2, max(DRAIN, 2 * cap + 12))
@@ -405,7 +425,8 @@ def gen_pkt_cases(seed, tiername, tag, count, n, eb):
 
 
 def gen_expose_cases(seed, tiername, n):
-    """single Packet.h widthReduce stages on shapes where its Empty/EmptyBits output is wrong on the unchanged tree"""
+    """single Packet.h widthReduce stages on shapes where its Empty/EmptyBits output was wrong before 32e913f
+    (narrow beat not a power of two bits wide, or more than two digits)"""
     rng = random.Random(f"C16/{seed}/{tiername}/expose")
     cases = []
     for i, shape in enumerate([(3, 3, 3), (2, 2, 3), (6, 2, 4), (6, 3, 3), (4, 2, 3), (8, 2, 4 - 1), (3, 3, 3), (6, 2, 4)]):
@@ -512,7 +533,7 @@ def oracle_case(params, evlines):
     if info["x_poison"]:
         obs[K_XREADY] += 1
         return None, st, obs
-    expose = params.get("expose") == "1" and len(stages) == 1 and stages[0][0] == "pr"
+    expose = False   # (the shapes of the former widthReduce Empty/EmptyBits defect, fixed in 32e913f, are ordinary cases now)
     tin, tout = [], []
     tout_cycle = []
     prev = None
@@ -821,7 +842,7 @@ def main():
     run_batch(gen_pkt_cases(seed, tiername, "pkt", npkt, ncyc, False), "pkt")
     # the same on streams that carry EmptyBits (partial last beats): no Coq machine -> packet oracle only
     run_batch(gen_pkt_cases(seed, tiername, "pkteb", npkteb, ncyc, True), "pkteb")
-    # defect-exposing shapes of widthReduce's Empty/EmptyBits output (K_PR_EMPTY), kept apart and labelled
+    # single widthReduce stages on the shapes on which its Empty/EmptyBits output used to be wrong (fixed: 32e913f)
     run_batch(gen_expose_cases(seed, tiername, ncyc), "pkteb_expose")
 
     # ---------------- verdict
@@ -888,16 +909,6 @@ def main():
             for kf in known:
                 if kf.startswith(key):
                     rep.known(kf)
-    # a confirmed defect of the real code: KNOWN-FINDING if listed, VIOLATION otherwise
-    if agg["obs"].get(K_PR_EMPTY):
-        listed = [kf for kf in known if kf.startswith(K_PR_EMPTY)]
-        if listed:
-            rep.known(listed[0])
-        else:
-            rep.violation(dict(property=CID, kind="packet-oracle", what="Packet.h widthReduce delivers Empty/EmptyBits = number of VALID bits (mod 2^k) of the eop narrow beat "
-                               "instead of the number of EMPTY bits", occurrences=agg["obs"][K_PR_EMPTY], example="chain=pr3 w=3: wide beat 7.6.4 eop emptyBits=3 -> eop narrow beat 6 with emptyBits=3 instead of 0",
-                               how_to_replay="checks/C16.py (batch pkteb_expose)"), tag="premptybits")
-
     # ---------------- evidence
     cov = rep.cov
     cov["evaluations"] = agg["cases"]
@@ -920,14 +931,20 @@ def main():
     cov["model_branches_single_stage_cases"] = dict(sorted(agg["branches"].items()))
     cov["by_design_observations"] = dict(agg["obs"])
     cov["search_mode"] = search_info
+    cov["theorem_vs_differential"] = ("THEOREM (all schedules): utils.h stages, Packet.h widthExtend/widthReduce/matchWidth on streams without Empty/EmptyBits, "
+                                      "arbitrary chains of them. DIFFERENTIAL ONLY: strm::fifo, and every chain on a stream that carries EmptyBits (packet oracle).")
     cov["explanation"] = ("Theorems are universal over all schedules (arbitrary lists of per-cycle inputs), all ratios, all chains (sdesc). What is sampled is only the "
                           "correspondence StreamDefs.v <-> utils.h. strm::fifo has no Coq machine here (C15 owns it): chains with ff/fz run against the python list oracle only.")
     rep.assumptions += [
         "StreamDefs.v is a hand transcription of utils.h (regDownstream, regDownstreamBlocking, regReady, regDecouple, delay, stall, extendWidth, reduceWidth); agreement with the code is established by the sampled cycle-accurate diff only",
         "producer-hold hypothesis (ready/valid protocol): reduceWidth's transfer theorem and every conditional hold theorem assume the producer keeps valid, payload, eop and meta of an offered beat until it is accepted; a non-conformant producer (hold=0 cases) is used for the tie only",
         "stall: the hold theorem assumes the stall condition does not rise while a beat waits at the stall stage's own output (stall_hold_refuted shows the unconditional form is false; DESIGN Q5, by design)",
-        "extendWidth (utils.h) takes eop/meta from the last packed sub-beat: packet boundaries are preserved only for packets aligned to the ratio (extendWidth_unaligned_eop_refuted); Packet.h widthExtend/widthReduce (Empty handling) are not modelled",
+        "extendWidth (utils.h) takes eop/meta from the last packed sub-beat: packet boundaries are preserved only for packets aligned to the ratio (extendWidth_unaligned_eop_refuted); Packet.h widthExtend keeps them for all packet lengths (widthExtend_keeps_packet_boundaries) but leaves the digits above a short last beat stale / undefined (wildcards in the oracle)",
         "the optional reset input of extendWidth / reduceWidth is tied to '0'; ByteEnable / Sop / Error / Empty meta signals are not exercised (one TxId word stands for per-beat meta)",
+        "Packet.h widthExtend / widthReduce are modelled (pextendS / preduceS) and tied cycle-exactly for streams WITHOUT Empty/EmptyBits; streams that carry EmptyBits (partial last beats, truncation path of widthReduce) have no Coq machine: they are checked by the packet oracle only (packets in == packets out digit exact, eop beat not empty, TxId of the eop beat kept, hold rule, drain) -- differential, not theorem",
+        "Packet.h matchWidth cannot be instantiated (Packet.h:798 calls in.width() on the Stream object; reported, not repaired): harness token pm<t> is a stand-in that makes the same three-way choice on in->width() and calls the real widthExtend / widthReduce; the model's matchD mirrors that choice",
+        "excluded from generation and listed as observations: (a) widthExtend ratio 1 on a stream with EmptyBits (DesignCheck 'missmatching operands size'); (b) regDownstreamBlocking combinationally in front of widthExtend (or, with EmptyBits, widthReduce): ready(in) reads eop/emptyBits of a register without reset value, the simulation stays X from power-up (X-pessimism, harmless in hardware); (c) widthExtend | widthReduce on EmptyBits streams of some non power of two widths (9b->27b->9b): widthReduce's `bitsLeft - zext(emptyBits(in))` rejects the wider EmptyBits that widthExtend produces (elaboration error, no behavioural defect)",
+        "packet family: the producer sends whole packets (prod=seq) with idle slots directly in front of the last beat of a packet / in front of one-beat packets / everywhere / nowhere while the consumer is always or mostly ready; emptyBits values are digit aligned (multiples of w)",
         "strm::fifo is a black box for the Coq part (C15 owns its machine); here it is covered by the list oracle and the hold rule only",
         "reference simulator semantics (registers, reset, clock edges) are taken as the meaning of the generated circuit (C01/C04 cover them); values are sampled before each rising edge",
         "liveness is proved for the register stages (regDownstream, regDownstreamBlocking, regReady, regDecouple, delay n) and checked by the drain phase of every generated case for all chains",
